@@ -139,7 +139,7 @@ def intercept(rng, p_outside, bounds):
 ACQ = ['lcbsc', 'lcbsc', 'maxvar', 'randmaxvar', 'randmaxvar', 'expintvar', 'uniform']
 
 
-def acquire_case(ctx, rng, reqs, meta, kind=None):
+def acquire_case(ctx, rng, reqs, meta, kind=None, forced=None):
     d = rng.randint(1, 2)
     bounds = [(rng.choice([-1.0, 0.0]), rng.choice([1.0, 2.0])) for _ in range(d)]
     kind = kind or rng.choice(ACQ)
@@ -149,6 +149,8 @@ def acquire_case(ctx, rng, reqs, meta, kind=None):
     n = rng.choice([1, 1, 2, 3, 5]) if kind != 'uniform' else rng.choice([5, 10])
     t = rng.randint(0, 6)
     noise = rng.choice([None, 0, 0.05, 'dict']) if kind == 'lcbsc' else None
+    if forced:
+        d, bounds, noise, n = forced['d'], forced['bounds'], forced['noise'], forced['n']
     names = ['t%d' % i for i in range(d)]
     if noise == 'dict':
         noise = {nm: rng.choice([0, 0.1, 0.02]) for nm in names}
@@ -553,6 +555,12 @@ def process(ctx, n_acq, n_pick, n_bo, n_grad):
     for k in ACQ[:0] + ['lcbsc', 'maxvar', 'randmaxvar', 'expintvar', 'uniform']:
         if not ctx.enough():
             acquire_case(ctx, rng, reqs, meta, kind=k)
+    # per-parameter noise with zero and positive entries in every position, parameters with DIFFERENT (disjoint) bounds
+    for fz in (dict(d=2, bounds=[(-1.0, 1.0), (3.0, 4.0)], noise={'t0': 0, 't1': 0.3}, n=5),
+               dict(d=2, bounds=[(3.0, 4.0), (-1.0, 1.0)], noise={'t0': 0.3, 't1': 0}, n=5),
+               dict(d=2, bounds=[(-2.0, -1.0), (5.0, 6.0)], noise={'t0': 0.2, 't1': 0.5}, n=4)):
+        if not ctx.enough():
+            acquire_case(ctx, rng, reqs, meta, kind='lcbsc', forced=fz)
     for _ in range(n_acq):
         if ctx.enough():
             break
